@@ -121,7 +121,9 @@ func scanDecode(out string) (string, error) {
 // "after:<filter>" = the escape filter directly behind another built-in filter in one chain; the text that must come back
 // is then what {{ v|<filter> }} prints
 var c07Positions = []string{"print", "chain-last", "chain-first", "apply", "macro", "include", "loop",
-	"after:abs", "after:round", "after:number_format", "after:number_format(1, '<', '&')", "after:trim", "after:default('<d>')", "after:lower", "after:length", "after:first", "after:join('<')", "after:replace({'a': '<'})", "after:nl2br"}
+	"after:abs", "after:round", "after:number_format", "after:number_format(1, '<', '&')", "after:trim", "after:default('<d>')", "after:lower", "after:length", "after:first", "after:join('<')", "after:replace({'a': '<'})", "after:nl2br",
+	// escaping what is already escaped escapes it again (the text to get back is the output of the first pass)
+	"after:e", "after:escape", "after:e|escape", "after:raw|e", "after:upper|upper"}
 
 func c07Templates(pos, filter string) map[string]string {
 	t := map[string]string{}
@@ -153,7 +155,12 @@ func (p *c07) checkOne(rec *core.Recorder, input interface{}, text string, pos, 
 	srcs := c07Templates(pos, filter)
 	rec.Count("position:"+pos, 1)
 	if strings.HasPrefix(pos, "after:") {
-		pre := renderFresh(map[string]string{"main": "{{ v|" + strings.TrimPrefix(pos, "after:") + " }}"}, "main", map[string]interface{}{"v": input}, nil)
+		pre := renderFresh(map[string]string{"main": "{{ v|" + strings.TrimPrefix(pos, "after:") + " }}"}, "main", map[string]interface{}{"v": input}, func(e *twig.Engine) {
+			if fallback {
+				e.VerifUnregisterFilter("e")
+				e.VerifUnregisterFilter("escape")
+			}
+		})
 		if pre.Err != nil || pre.Panicked {
 			rec.Count("skipped-prefilter-fails", 1)
 			return true
